@@ -189,7 +189,11 @@ func (l locality) matrices() map[string]mat.Matrix {
 var spatialVals = []float64{0, 1, 3}
 
 func spatialCase(t *vlib.T, idx []int, l locality) {
-	data := pick(spatialVals, idx)
+	spatialData(t, pick(spatialVals, idx), l)
+}
+
+// spatialData checks GlobalMoransI and GetisOrdGStar for one data vector given by value.
+func spatialData(t *vlib.T, data []float64, l locality) {
 	n := len(data)
 	fn := float64(n)
 	m := newMom(data, nil).withRats()
@@ -200,12 +204,14 @@ func spatialCase(t *vlib.T, idx []int, l locality) {
 	outcome := fmt.Sprintf("n=%d sym=%v", n, l.sym)
 	// exact Moran's I
 	num, s0, s1, s2 := new(big.Rat), new(big.Rat), new(big.Rat), new(big.Rat)
-	numAbs := 0.0
+	numAbs, numPert := 0.0, 0.0
 	for i := 0; i < n; i++ {
 		rc := new(big.Rat)
 		for j := 0; j < n; j++ {
 			num.Add(num, rmul(wr[i][j], rmul(m.dr[i], m.dr[j])))
 			numAbs += math.Abs(l.w[i][j]) * (m.df[i] + m.tau) * (m.df[j] + m.tau)
+			// effect of the error (<= tau) of the computed mean on the centred products: first order in tau
+			numPert += math.Abs(l.w[i][j]) * ((m.df[i]+m.tau)*(m.df[j]+m.tau) - m.df[i]*m.df[j])
 			s0.Add(s0, wr[i][j])
 			v := radd(wr[i][j], wr[j][i])
 			s1.Add(s1, rmul(v, v))
@@ -223,7 +229,7 @@ func spatialCase(t *vlib.T, idx []int, l locality) {
 		I := rmul(rquo(nR, s0), rquo(num, den))
 		Iw = rf(I)
 		tolDen := 8 * (fn + 5) * eps * (m.Sf + fn*m.tau*m.tau)
-		tolI = fn/math.Abs(rf(s0))*(8*(fn*fn+8)*eps*numAbs/m.Sf+math.Abs(rf(num))/m.Sf*tolDen/m.Sf)*1.01 + 8*eps*math.Abs(Iw)
+		tolI = fn/math.Abs(rf(s0))*((8*(fn*fn+8)*eps*numAbs+1.01*numPert)/m.Sf+math.Abs(rf(num))/m.Sf*tolDen/m.Sf)*1.01 + 8*eps*math.Abs(Iw)
 		E := rquo(rint(-1), rint(int64(n-1)))
 		n2 := rmul(nR, nR)
 		a := rmul(nR, radd(rsub(rmul(radd(rsub(n2, rmul(rint(3), nR)), rint(3)), s1), rmul(nR, s2)), rmul(rint(3), rmul(s0, s0))))
@@ -297,7 +303,11 @@ func spatialCase(t *vlib.T, idx []int, l locality) {
 			}
 			denG := sqrtRat(rmul(S2, inner))
 			want := rf(numG) / denG
-			relDen := 16*(fn+6)*eps*(1+rf(rquo(sq, rint(int64(n))))/rf(S2)) + 16*(fn+4)*eps*(fn*rf(sww)+rf(rmul(sw, sw)))/(rf(inner)*(fn-1))
+			// S is a standard deviation: the bound is that of the corrected two-pass sum of squares
+			// (tolS: first order in eps, second order in the error of the mean), NOT that of the
+			// textbook form sum(x^2)/n - mean^2 of the doc comment, whose cancellation costs
+			// eps*(mean/S)^2 and destroys translation invariance for data with a large mean.
+			relDen := 0.51*m.tolS()/m.Sf*1.01 + 16*eps + 16*(fn+4)*eps*(fn*rf(sww)+rf(rmul(sw, sw)))/(rf(inner)*(fn-1))
 			tol := 8*(fn+4)*eps*absN/denG + math.Abs(want)*relDen + 8*eps*math.Abs(want)
 			if !near(gg, want, tol) {
 				t.Failf("GetisOrdGStar(%d,%s) = %v, formula gives %v (bound %.3g)", i, kind, gg, want, tol)
@@ -349,8 +359,13 @@ func mdsCase(t *vlib.T, pts [][2]int, passEig bool) {
 	mdsCaseRep(t, pts, passEig, "compact")
 }
 
-// mdsCaseRep is mdsCase with the dissimilarity matrix in the given storage representation.
 func mdsCaseRep(t *vlib.T, pts [][2]int, passEig bool, kind string) {
+	mdsCaseScaled(t, pts, passEig, kind, 1)
+}
+
+// mdsCaseRep is mdsCase with the dissimilarity matrix in the given storage representation.
+// mdsCaseScaled: the configuration is scaled by the exact factor scale (a power of two).
+func mdsCaseScaled(t *vlib.T, pts [][2]int, passEig bool, kind string, scale float64) {
 	n := len(pts)
 	fn := float64(n)
 	compact := mat.NewSymDense(n, nil)
@@ -361,10 +376,10 @@ func mdsCaseRep(t *vlib.T, pts [][2]int, passEig bool, kind string) {
 		d2[i] = make([]float64, n)
 		for j := range pts {
 			dx, dy := float64(pts[i][0]-pts[j][0]), float64(pts[i][1]-pts[j][1])
-			d2[i][j] = dx*dx + dy*dy
+			d2[i][j] = (dx*dx + dy*dy) * scale * scale
 			maxD2 = math.Max(maxD2, d2[i][j])
 			if j >= i {
-				dis.SetSym(i, j, math.Sqrt(d2[i][j]))
+				dis.SetSym(i, j, math.Sqrt(dx*dx+dy*dy)*scale)
 			}
 		}
 	}
@@ -386,7 +401,8 @@ func mdsCaseRep(t *vlib.T, pts [][2]int, passEig bool, kind string) {
 	trace := radd(sxx, syy)
 	det := rsub(rmul(sxx, syy), rmul(sxy, sxy))
 	disc := sqrtRat(rsub(rmul(trace, trace), rmul(rint(4), det)))
-	tr := rf(trace)
+	disc *= scale * scale
+	tr := rf(trace) * scale * scale
 	l1, l2 := (tr+disc)/2, (tr-disc)/2
 	rank := 0
 	if trace.Sign() > 0 {
@@ -395,7 +411,7 @@ func mdsCaseRep(t *vlib.T, pts [][2]int, passEig bool, kind string) {
 			rank = 2
 		}
 	}
-	tol := 512 * (fn + 4) * eps * (tr + maxD2 + 1)
+	tol := 512 * (fn + 4) * eps * (tr + maxD2 + scale*scale)
 
 	var dst mat.Dense
 	var eigdst []float64
@@ -537,4 +553,8 @@ func genMDS(g *vlib.G) {
 			return
 		}
 	}
+}
+
+func spatialGStar(i int, data []float64, locality mat.Matrix) float64 {
+	return spatial.GetisOrdGStar(i, data, nil, locality)
 }
